@@ -350,7 +350,12 @@ def observe_project(path, source):
                 continue
             if core.my_id(sp) == i:
                 exact.add(i)
-    return {"present": present, "exact": exact, "alien": alien, "stray": sorted(stray),
+    missing, surplus = [], []
+    for i in present - exact:
+        if i in source.jobtrees:
+            missing += ["%s/%s" % (i[:6], k) for k in source.jobtrees[i] if k not in jobs[i]]
+            surplus += ["%s/%s" % (i[:6], k) for k in jobs[i] if k not in source.jobtrees[i]]
+    return {"present": present, "exact": exact, "alien": alien, "stray": sorted(stray), "missing": sorted(missing), "surplus": sorted(surplus),
             "halfjobs": sorted(i for i in jobs if i not in present)}
 
 
